@@ -600,7 +600,7 @@ pub fn inter(rec: &mut Recorder, rng: &mut Rng, thorough: bool) {
     let t2 = table_k();
     let rows: Vec<usize> = if thorough { (0..477).collect() } else {
         // quick: every row up to K'=~1300 in steps, the historically fragile ones, and a random handful of large ones
-        let mut v: Vec<usize> = (0..477).filter(|i| t2[*i] <= 400 || (*i % 9 == 0 && t2[*i] <= 3000)).collect();
+        let mut v: Vec<usize> = (0..477).filter(|i| t2[*i] <= 2000 || (*i % 5 == 0 && t2[*i] <= 6000)).collect();
         for (i, kp) in t2.iter().enumerate() { if [1698u32, 8837, 1649, 1673, 6589, 56403].iter().any(|x| kp >= x && (i == 0 || t2[i - 1] < *x)) { v.push(i); } }
         for _ in 0..3 { v.push(rng.below(477) as usize); }
         v.sort(); v.dedup(); v
